@@ -1,7 +1,7 @@
 LIBS = ["libvpsc", "libavoid"]
 HARNESS = "harness/c01.cpp"
 DRIVER_MODE = "c01"
-LEAN_MODULES = ["AdaptaVerif.Props.C01", "AdaptaVerif.Props.C01Tie"]
+LEAN_MODULES = ["AdaptaVerif.Props.C01", "AdaptaVerif.Props.C01Tie", "AdaptaVerif.Props.C01Static"]
 LEVEL = "proof"
 LEVEL_TEXT = ("Machine-checked (Lean 4, no sorry, axioms propext/Classical.choice/Quot.sound) for the incremental "
               "solver's Rat model, over all histories of IncSolver(vs,cs) / addConstraint / change-desired / satisfy / "
@@ -14,17 +14,31 @@ LEVEL_TEXT = ("Machine-checked (Lean 4, no sorry, axioms propext/Classical.choic
               "The checkers that judge every output of the real code (checkPost, Check.feasible with certificates) have "
               "soundness theorems, so a SPECFAIL is a proven violation of the property text on a concrete input. "
               "The model is tied to vpsc::IncSolver and Avoid::IncSolver by margin-guarded exact correspondence of "
-              "positions, flags, active sets, return values on ~7e3 (quick) / ~1.1e5 (thorough) cases per run.")
+              "positions, flags, active sets, return values on ~7e3 (quick) / ~1.1e5 (thorough) cases per run. "
+              "The STATIC solver vpsc::Solver is modelled as well (Model/VpscStatic.lean: totalOrder/dfsVisit, "
+              "mergeLeft/mergeRight with the pairing heaps, CompareConstraints on the live state, block and "
+              "constraint time stamps with the lazy repair of findMinInConstraint, Blocks::split, refine with its "
+              "100-round limit) and tied to the C++ by the same margin-guarded correspondence (positions, active "
+              "set, block partition, return value / throw); Props/C01Static: the heap order is the regenerated "
+              "CompareConstraints (gen_compareConstraints_is_model), static_satisfy_post / static_solve_post (exit "
+              "scans), static_block_inv (on every normal return from Solver(vs,cs);satisfy()/solve() the active "
+              "constraints of every block form a tight spanning tree), static_block_inv_steps (preserved by "
+              "mergeLeft, mergeRight, split from any state), static_active_tight, static_quiescent_is_optimum.")
 LEVEL_NOTE = ("Scope of 'proof': the theorems are about the hand-written Rat model of IncSolver; the C++ is tied to it "
               "by sampled correspondence (trusted base), and float rounding inside the solver is outside the model. "
               "Partial correctness: the model's loops carry fuel; theorems are about normal returns (a run that "
               "exhausts fuel is reported by the driver as a broken tie; none observed). Hypothesis of the history "
               "theorems: constraints refer to existing variables and are not pre-flagged (Hist). eq_post assumes "
               "non-zero scales. Not proved: that the certificate search of Check.feasible never answers 'unknown' "
-              "(both of its real answers are proved sound; an 'unknown' is reported; none observed). The static "
-              "Solver (mergeLeft/mergeRight/pairing heaps) is validator-only: not modelled, its outputs are judged "
-              "by the proven checkers on unscaled inequality DAGs; its two genuine defects (equalities ignored, "
-              "scaled split) are known findings watched by the 'findings' stream.")
+              "(both of its real answers are proved sound; an 'unknown' is reported; none observed). Static "
+              "Solver: NOT proved that satisfy() never throws on an acyclic inequality system (the VPSC paper's merge "
+              "invariant through the lazily repaired heaps) - that is observed per case by correspondence + the "
+              "proven checker; three facts of the heap discipline are checked dynamically by the model instead of "
+              "proved (flag HS.corrupt: a heap returns an internal constraint / one not entering the block; "
+              "findMinLM returns a constraint of another block) - a run setting it is no normal return and is "
+              "reported; the model is tied on unscaled inequality systems only; the static solver's two genuine "
+              "defects (equalities ignored - reproduced by the model, witness in Props/C01Static; scaled split) "
+              "are known findings watched by the 'findings' stream.")
 TECHNIQUE = ("Lean 4 theorems (certified Bellman-Ford feasibility checker, post-condition checker, Rat model of "
              "IncSolver with exit-scan post-condition and flag completeness) + correspondence harness on "
              "libvpsc and libavoid's private copy")
@@ -32,7 +46,11 @@ RULE = ("groups of 3 cases share one problem+history (vpsc::IncSolver, Avoid::In
         "inequality DAGs); exhaustive small systems first, then seeded random DAGs / chains / stars / multigraphs / "
         "k-cycles with total gap <,=,> 0 / equalities / scales / wild weights / 1/1024-grained data / makeFeasible-like "
         "one-equality-at-a-time histories (eq-incr*, incl. consistent redundant equalities) with histories of "
-        "addConstraint / move desired / satisfy / solve. A case is non-trivial if the model performed at least one "
+        "addConstraint / move desired / satisfy / solve; an extension block after them: static-solver classes "
+        "st-stale (out-of-date time stamps at heap roots), st-drag (heavy far-out variables: refine splits, "
+        "mergeRight), st-desc, st-layers (both merge directions), st-zigzag (several refine rounds), and "
+        "eq-sameblock histories (an equality added between two variables of one block holding several stretched "
+        "inequalities). A case is non-trivial if the model performed at least one "
         "merge, split or flagging (inc) or some constraint ended active (static).")
 TRUSTED_BASE = ["Lean 4.33 kernel", "axioms: propext, Classical.choice, Quot.sound",
                 "Lean compiler for the driver (checkers/model run compiled)",
@@ -45,8 +63,9 @@ ASSUMPTIONS = ["weights > 0 and scales > 0 (generator only produces such)",
                "static Solver is driven only on acyclic inequality systems"]
 EXPLANATION = ("SPECFAIL: an unflagged constraint violated beyond tolerance, a non-finite position, a flag on a "
                "certified-feasible inequality system, or no flag on a certified-infeasible one. DIVERGE: model and "
-               "implementation differ on positions/flags/active/return/thrown where all model decisions had margin "
-               "> 1e-7*scale.")
+               "implementation differ on positions/flags/active/return/thrown (static solver: positions / active set "
+               "up to identical duplicates / block partition / return / thrown; model out of fuel or heap-discipline "
+               "flag) where all model decisions had margin > 1e-7*scale.")
 
 
 import os
